@@ -48,7 +48,7 @@ def correspond(res, tier):
                 for xh in pts:
                     if not (0 <= xh <= fx.length):
                         continue
-                    for t in (t0 - F(1, 16), t0, t0 + (t1 - t0) / 3, t1, t1 + F(1, 5), t1 + F(3)):
+                    for t in (t0 - F(1, 16), t0, t0 + (t1 - t0) / 4096, t0 + (t1 - t0) / 3, t1, t1 + F(1, 5), t1 + F(3)):
                         if t < 0:
                             continue
                         x, pi_ = fx.gamma(xh)
@@ -80,8 +80,8 @@ def correspond(res, tier):
 
 def search(res, tier, boost=False):
     rng = seed_rng(res.seed, 'C07s')
-    curves = ['UnitSquare', 'Circle', 'LShape', 'PiSquare', 'UnitInterval']
-    n_mesh = (5 if tier == 'quick' else 25) * (2 if boost else 1)
+    curves = ['UnitSquare', 'Circle', 'LShape', 'PiSquare', 'UnitInterval', 'ThinRect', 'Notch']
+    n_mesh = (7 if tier == 'quick' else 28) * (2 if boost else 1)
     n_pts = 400 if tier == 'quick' else 1500
     worst = dict(inside=0.0, far=0.0, near=0.0, exact=0.0)
     for mi in range(n_mesh):
@@ -111,8 +111,10 @@ def search(res, tier, boost=False):
                 xh = xh % L
             if not (0 <= xh <= L):
                 continue
-            tkind = rng.choice(['mid', 'end', 'after', 'start'])
-            t = {'mid': rng.uniform(ta, tb), 'end': tb, 'after': tb + rng.uniform(0.05, 1.0) * (tb - ta), 'start': ta}[tkind]
+            tkind = rng.choice(['mid', 'end', 'after', 'start', 'early'])
+            # 'early': the sharpest kernel the quantifier admits (ratio h_x^2/tau between 4 and 16)
+            t = {'mid': rng.uniform(ta, tb), 'end': tb, 'after': tb + rng.uniform(0.05, 1.0) * (tb - ta), 'start': ta,
+                 'early': ta + hx**2 / 16 * rng.uniform(1.0, 4.0)}[tkind]
             taus = [v for v in (t - ta, t - tb) if v > 0]
             if t > ta and (not taus or hx**2 / min(taus) > 16):
                 continue
